@@ -298,13 +298,18 @@ def worker(arg):
     # shrink one witness per key
     out_viol = []
     shrunk = 0
+    known = common.load_findings("C08")
     for key, (what, s, count) in viol.items():
         if key.startswith("~note"):
             out_viol.append((key, what, None, count))
             continue
         # shrinking costs driver runs: the first few classes of a worker get the full budget, a flood (mutated tree) does not
-        shrunk += 1
-        small = minimize(exes["equiv"], s, key, budget=160 if shrunk <= 4 else 40 if shrunk <= 12 else 0)
+        if any(f.get("status") == "known" and common.key_matches(f["key"], key) for f in known):
+            budget = 0      # already triaged: no need to pay for a minimal witness on every run
+        else:
+            shrunk += 1
+            budget = 120 if shrunk <= 4 else 40 if shrunk <= 12 else 0
+        small = minimize(exes["equiv"], s, key, budget=budget)
         try:
             text = SG.render(small, small.get("allow_empty", False))
         except SG.Invalid:
